@@ -1,12 +1,15 @@
 package props
 
 import (
+	"bytes"
 	"context"
 	"encoding/json"
 	"errors"
 	"fmt"
 	"io"
+	"net/http"
 	"os"
+	"strings"
 	"sync/atomic"
 
 	"cuelabs.dev/go/oci/ociregistry"
@@ -36,7 +39,15 @@ type c04Script struct {
 	BadKind  string `json:"bad_kind"`          // plus1, minus1, zero
 	BadVia   string `json:"bad_via,omitempty"` // how the mis-positioned data is flushed: "" = Close (PATCH), "commit" = Commit (PUT)
 	Wrong    bool   `json:"commit_wrong_digest"`
+	// WrongOf: which wrong digest is used: "" = of content nobody has, "present" = of a different blob
+	// that is already in the same repository, "empty" = of the empty blob, present in the repository
+	WrongOf string `json:"wrong_digest_of,omitempty"`
+	// FailReq > 0: the FailReq-th upload data request (PATCH/PUT) of the script fails in the transport
+	// before reaching the server; the caller retries the call that failed (Write: the unwritten rest)
+	FailReq int `json:"transport_fault_at_data_request,omitempty"`
 }
+
+var errC04Injected = errors.New("injected transport failure before delivery")
 
 // smallChunk wraps a registry so that its writers report a tiny minimum chunk size.
 type smallChunk struct {
@@ -75,16 +86,28 @@ func c04Backend(minChunk int) ociregistry.Interface {
 	return b
 }
 
+// c04LastTransport is the client-side transport of the most recent "http1" stack built by this goroutine's
+// caller (returned through c04StackT).
 func c04Stack(name string, minChunk int) ociregistry.Interface {
-	switch name {
-	case "mem":
-		return c04Backend(minChunk)
-	case "http1":
+	reg, _ := c04StackT(name, minChunk)
+	return reg
+}
+
+func c04StackT(name string, minChunk int) (ociregistry.Interface, *inprocTransport) {
+	if name == "http1" {
 		c, tr := httpStack(c04Backend(minChunk), nil, nil)
 		if os.Getenv("C04_DEBUG") != "" {
 			tr.Log = func(s string) { fmt.Println("  HTTP:", s) }
 		}
-		return c
+		return c, tr
+	}
+	return c04StackPlain(name, minChunk), nil
+}
+
+func c04StackPlain(name string, minChunk int) ociregistry.Interface {
+	switch name {
+	case "mem":
+		return c04Backend(minChunk)
 	case "http2":
 		inner, _ := httpStack(c04Backend(minChunk), nil, nil)
 		c, _ := httpStack(inner, nil, nil)
@@ -115,12 +138,29 @@ func (sc c04Script) fpBase() string {
 	if sc.MinChunk != 8192 {
 		mc = "min-small"
 	}
+	if sc.FailReq > 0 {
+		mc += "/after-transport-fault"
+	}
 	return fmt.Sprintf("C04/%s/%s", sc.Stack, mc)
 }
 
 func c04Run(r *vcore.Run, sc c04Script) (ops int64) {
 	ctx := context.Background()
-	reg := c04Stack(sc.Stack, sc.MinChunk)
+	reg, tr := c04StackT(sc.Stack, sc.MinChunk)
+	faultFired, faultPending := false, false
+	if sc.FailReq > 0 && tr != nil {
+		k := 0
+		tr.FailBefore = func(req *http.Request) error {
+			if (req.Method == "PATCH" || req.Method == "PUT") && strings.Contains(req.URL.Path, "/blobs/uploads/") {
+				k++
+				if k == sc.FailReq {
+					faultFired, faultPending = true, true
+					return errC04Injected
+				}
+			}
+			return nil
+		}
+	}
 	n := 0
 	for _, p := range sc.Pieces {
 		n += p
@@ -144,6 +184,10 @@ func c04Run(r *vcore.Run, sc c04Script) (ops int64) {
 			if i > 0 && sc.CloseAt[i] {
 				size := w.Size()
 				if err := w.Close(); err != nil {
+					if faultPending {
+						r.Outcome("fault-in-close") // the unflushed chunk is gone with the writer: nothing further is promised
+						return
+					}
 					viol("close-failed", "Close succeeds", err.Error())
 					return
 				}
@@ -218,6 +262,13 @@ func c04Run(r *vcore.Run, sc c04Script) (ops int64) {
 			}
 			nw, err := w.Write(content[off : off+p])
 			ops++
+			if err != nil && faultPending && nw >= 0 && nw <= p {
+				// the caller retries what was not accepted
+				faultPending = false
+				nw2, err2 := w.Write(content[off+nw : off+p])
+				ops++
+				nw, err = nw+nw2, err2
+			}
 			if err != nil || nw != p {
 				viol("write-failed", fmt.Sprintf("Write returns (%d, nil)", p), fmt.Sprintf("(%d, %v)", nw, err))
 				return
@@ -228,7 +279,18 @@ func c04Run(r *vcore.Run, sc c04Script) (ops int64) {
 			}
 		}
 		right := sha256Digest(content)
-		wrong := sha256Digest(append(append([]byte(nil), content...), 'X'))
+		other := append(append([]byte(nil), content...), 'X')
+		if sc.WrongOf == "empty" {
+			other = []byte{}
+		}
+		wrong := sha256Digest(other)
+		if sc.Wrong && sc.WrongOf != "" {
+			// the digest committed with belongs to other content that the repository already holds
+			if _, err := reg.PushBlob(ctx, "r", descOf(mtOctet, other), bytes.NewReader(other)); err != nil {
+				viol("prepush-failed", "PushBlob of the other content succeeds", err.Error())
+				return
+			}
+		}
 		get := func(d ociregistry.Digest) ([]byte, error) {
 			rd, err := reg.GetBlob(ctx, "r", d)
 			if err != nil {
@@ -241,10 +303,18 @@ func c04Run(r *vcore.Run, sc c04Script) (ops int64) {
 			_, err := w.Commit(wrong)
 			ops++
 			if err == nil {
-				viol("wrong-digest-commit-accepted", "commit with a wrong digest fails", "succeeded")
+				viol("wrong-digest-commit-accepted"+map[string]string{"": "", "present": "/digest-of-a-present-blob", "empty": "/digest-of-the-present-empty-blob"}[sc.WrongOf], "commit with a wrong digest fails", "succeeded")
 			}
 			for _, d := range []ociregistry.Digest{right, wrong} {
-				if data, err := get(d); err == nil {
+				data, err := get(d)
+				if d == wrong && sc.WrongOf != "" {
+					// the other blob was there before and must still be itself
+					if err != nil || string(data) != string(other) {
+						viol("present-blob-damaged-by-failed-commit", fmt.Sprintf("%q still retrievable under its digest", other), fmt.Sprintf("%q, %v", data, err))
+					}
+					continue
+				}
+				if err == nil {
 					viol("stored-after-failed-commit", "nothing stored", fmt.Sprintf("%q retrievable under %s", data, d))
 				}
 			}
@@ -253,6 +323,11 @@ func c04Run(r *vcore.Run, sc c04Script) (ops int64) {
 		}
 		desc, err := w.Commit(right)
 		ops++
+		if err != nil && faultPending {
+			faultPending = false
+			desc, err = w.Commit(right)
+			ops++
+		}
 		if err != nil {
 			viol("commit-failed", "commit with the matching digest succeeds", err.Error())
 			return
@@ -268,6 +343,9 @@ func c04Run(r *vcore.Run, sc c04Script) (ops int64) {
 		}
 		if string(data) != string(content) {
 			viol("content-differs", fmt.Sprintf("%q", content), fmt.Sprintf("%q", data))
+		}
+		if sc.FailReq > 0 && !faultFired {
+			r.Outcome("fault-not-reached")
 		}
 		r.Outcome("committed")
 	})
@@ -371,9 +449,22 @@ func c04Scripts(thorough bool) []c04Script {
 								}
 								base := c04Script{Stack: st.name, MinChunk: mc, Hint: hint, Pieces: pieces, CloseAt: closeAt, Mode: mode, BadAt: -1}
 								out = append(out, base)
+								if st.name == "http1" {
+									for k := 1; k <= 3; k++ {
+										f := base
+										f.FailReq = k
+										out = append(out, f)
+									}
+								}
 								w := base
 								w.Wrong = true
 								out = append(out, w)
+								w.WrongOf = "present"
+								out = append(out, w)
+								if n > 0 {
+									w.WrongOf = "empty"
+									out = append(out, w)
+								}
 								for i := 1; i < p; i++ {
 									if !closeAt[i] || pieces[i] == 0 {
 										continue // an empty write sends no data, so nothing is sent at a wrong offset
@@ -464,7 +555,7 @@ func c04Check(r *vcore.Run) vcore.Coverage {
 		"in-process transport (see C03's binding run against a real loopback server)",
 	}
 	return vcore.Coverage{States: int64(len(scripts)), Transitions: ops, TracesImpl: int64(len(scripts)), Evaluations: int64(len(scripts)), Nontrivial: nontrivial, Exhaustive: true,
-		Rule: "every composition of an n-byte content (n <= 4 quick / 6 thorough) into Write calls x chunk-size hints x every subset of write boundaries closed-and-resumed x resume modes {explicit, -1, alternating} x one bad resume (offset +1, -1, 0) at each boundary x right/wrong commit digest x stacks {mem, client->server->mem with registry minimum 1,2,3,8192, two hops, ociunify, ociunify over HTTP}; plus write sizes around the real 8192 minimum; states = scripts, transitions = writer operations; non-trivial = more than one Write"}
+		Rule: "every composition of an n-byte content (n <= 4 quick / 6 thorough) into Write calls x chunk-size hints x every subset of write boundaries closed-and-resumed x resume modes {explicit, -1, alternating} x one bad resume (offset +1, -1, 0) at each boundary x one transport failure before delivery at the k-th data request (k <= 3, first hop; the failed Write/Commit is retried) x right/wrong commit digest (wrong = of absent content, of a different blob present in the repository, of the present empty blob) x stacks {mem, client->server->mem with registry minimum 1,2,3,8192, two hops, ociunify, ociunify over HTTP}; plus write sizes around the real 8192 minimum; states = scripts, transitions = writer operations; non-trivial = more than one Write"}
 }
 
 func c04Replay(r *vcore.Run, sub string, raw json.RawMessage) {
